@@ -283,8 +283,10 @@ class Recorder:
                 inst["excuse_error"] = f"{type(e).__name__}: {e}"
             except Exception as e:  # pylint: disable=broad-except
                 inst["excuse_error"] = f"{type(e).__name__}: {e}"
+        model_raw = None
         if status == "failed" and r == z3.sat:
             model = s.model()
+            model_raw = model
             # try for a float-exact witness: all real inputs dyadic (k/1024)
             reals = [v for v in c.inputs.values() if z3.is_real(v)]
             if reals:
@@ -305,6 +307,8 @@ class Recorder:
                 try:
                     args = self.args_of_path()
                     inst["witness"] = {k: to_src(v, model, c) for k, v in args.items()}
+                    if model_raw is not None and model_raw is not model:
+                        inst["witness_raw"] = {k: to_src(v, model_raw, c) for k, v in args.items()}
                     inst["model"] = {str(d): str(model[d]) for d in model.decls()[:60]}
                 except VcAbort as e:
                     inst["witness_error"] = f"{type(e).__name__}: {e}"
@@ -329,7 +333,11 @@ def _bind(raw_fn, args, kwargs):
     sig = inspect.signature(raw_fn)
     ba = sig.bind(*args, **kwargs)
     ba.apply_defaults()
-    return dict(ba.arguments)
+    out = dict(ba.arguments)
+    for k, v in list(out.items()):
+        if inspect.isgenerator(v):
+            out[k] = list(v)  # the callee would consume it once; contracts index into it
+    return out
 
 
 def havoc_location(locn):
@@ -360,6 +368,7 @@ def make_stub(C: Contract, raw_fn):
     def _stub_body(c, args, kwargs):
         USED_STUBS.add(C.fn)
         bound = _bind(raw_fn, args, kwargs)
+        c.ghost.setdefault("calls", {}).setdefault(C.fn, []).append(bound)
         ghosts = C.ghost_names(raw_fn)
         # ghost arguments supplied by the caller's contract for this call site
         gvals = None
@@ -405,6 +414,7 @@ def make_stub(C: Contract, raw_fn):
         shp = call_by_name(C.returns, env)
         res = make_value(shp, f"ret.{C.fn.split(':')[-1]}")
         env["result"] = res
+        c.ghost["calls"][C.fn][-1] = dict(bound, __result__=res)
         for label, e in C.labelled_ensures():
             used = set(inspect.signature(e).parameters) & ghosts
             if not used or gvals is not None:
